@@ -27,6 +27,7 @@ Shapes ==
      forv |-> {<<"body">>, <<"body", "orelse">>},
      withas |-> {<<"body">>},
      withsuppas |-> {<<"body">>},
+     whilev |-> {<<"body">>, <<"body", "orelse">>},
      \* `match subj():` -- one or two cases; part names: cap / seq / wild, a trailing g = guarded; an unguarded
      \* irrefutable case (cap, wild) must be the last one (SyntaxError otherwise)
      match |-> {<<c>> : c \in {"cap", "capg", "seq", "seqg", "wild"}}
@@ -40,12 +41,13 @@ gvars == <<stack, nid, done>>
 Frame(kind, shape, id) == [kind |-> kind, shape |-> shape, id |-> id, parts |-> << >>, cur |-> << >>, v |-> ""]
 Root == Frame("root", <<"body">>, 0)
 VarKinds == {"ifw", "forv", "withas", "withsuppas", "match"}
+TestKinds == {"mlist", "elist", "tuple", "one", "zero"}
 
 GInit == stack = <<Root>> /\ nid = 1 /\ done = FALSE
 
 Top == stack[Len(stack)]
 PartName(f) == f.shape[Len(f.parts) + 1]
-InLoopBody == \E i \in 1..Len(stack) : stack[i].kind \in {"while", "whiletrue", "for", "forv"} /\ Len(stack[i].parts) = 0
+InLoopBody == \E i \in 1..Len(stack) : stack[i].kind \in {"while", "whiletrue", "for", "forv", "whilev"} /\ Len(stack[i].parts) = 0
 
 Push(s) == stack' = [stack EXCEPT ![Len(stack)].cur = Append(@, s)]
 \* no dead code: nothing may follow return / raise / break / continue in the same block (pyanalyze
@@ -77,7 +79,7 @@ Open ==
     /\ \E kind \in Kinds : \E shape \in Shapes[kind] :
          /\ (Shape = "loop" /\ Len(stack) = 1) => (kind \in {"for", "while", "whiletrue"} /\ Top.cur = << >> /\ shape = <<"body">>)
          /\ (Shape = "loop" /\ Len(stack) > 1) => kind \notin {"for", "while", "whiletrue"}
-         /\ \E w \in (IF kind \in VarKinds THEN GenVars ELSE {""}) :
+         /\ \E w \in (IF kind \in VarKinds THEN GenVars ELSE IF kind = "whilev" THEN TestKinds ELSE {""}) :
                 stack' = Append(stack, [Frame(kind, shape, nid) EXCEPT !.v = w])
     /\ nid' = nid + 1 /\ UNCHANGED done
 
@@ -105,6 +107,7 @@ MakeStmt(f, parts) ==
          [] f.kind = "for" -> [k |-> "for", id |-> f.id, body |-> body, orelse |-> orelse]
          [] f.kind = "with" -> [k |-> "with", id |-> f.id, supp |-> FALSE, body |-> body]
          [] f.kind = "withsupp" -> [k |-> "with", id |-> f.id, supp |-> TRUE, body |-> body]
+         [] f.kind = "whilev" -> [k |-> "whilev", id |-> f.id, t |-> f.v, body |-> body, orelse |-> orelse]
          [] f.kind = "ifw" -> [k |-> "ifw", id |-> f.id, v |-> f.v, body |-> body, orelse |-> orelse]
          [] f.kind = "forv" -> [k |-> "forv", id |-> f.id, v |-> f.v, body |-> body, orelse |-> orelse]
          [] f.kind = "withas" -> [k |-> "withas", id |-> f.id, v |-> f.v, supp |-> FALSE, body |-> body]
@@ -241,6 +244,7 @@ CannotComplete(s) ==
       [] s.k \in IfKinds -> BlockCannotComplete(s.body) /\ BlockCannotComplete(s.orelse)
       [] s.k \in WithKinds -> ~s.supp /\ BlockCannotComplete(s.body)
       [] s.k = "while" -> s.true /\ ~HasOwnBreak(s.body)
+      [] s.k = "whilev" -> s.t \in AlwaysTrueTests /\ ~HasOwnBreak(s.body)
       [] s.k = "try" -> \/ BlockCannotComplete(s.final)
                         \/ /\ BlockCannotComplete(s.body) \/ BlockCannotComplete(s.orelse)
                            /\ \A j \in 1..Len(s.handlers) : BlockCannotComplete(s.handlers[j])
@@ -255,6 +259,7 @@ DeadTail(block) ==
            \* the else clause of a try statement whose body cannot complete, of a `while True:` loop
            \/ s.k = "try" /\ s.orelse # << >> /\ BlockCannotComplete(s.body)
            \/ s.k = "while" /\ s.true /\ s.orelse # << >>
+           \/ s.k = "whilev" /\ s.t \in AlwaysTrueTests /\ s.orelse # << >>
            \/ s.k \in IfKinds \cup LoopKinds /\ (DeadTail(s.body) \/ DeadTail(s.orelse))
            \/ s.k \in WithKinds /\ DeadTail(s.body)
            \/ s.k = "match" /\ \E j \in 1..Len(s.cases) : DeadTail(s.cases[j].body)
@@ -293,7 +298,7 @@ AnyStmt(block, kind) ==       \* does the program contain a statement with the g
     \E i \in 1..Len(block) :
         LET s == block[i]
             here == CASE kind = "loopelse" -> s.k \in LoopKinds /\ s.orelse # << >>
-                      [] kind = "whiletrue" -> s.k = "while" /\ s.true
+                      [] kind = "whiletrue" -> (s.k = "while" /\ s.true) \/ (s.k = "whilev" /\ s.t \in AlwaysTrueTests)
                       [] kind = "bodyleaves" -> s.k \in LoopKinds /\ s.body # << >>
                                                 /\ s.body[Len(s.body)].k \in {"break", "return", "raise"}
                       [] kind = "break" -> s.k = "break"
